@@ -490,12 +490,25 @@ func expandCursor(c *Contract, spec string) error {
 	return nil
 }
 
+// tagHas: a clause tagged "C08 C10" belongs to both properties; an untagged clause to all.
+func tagHas(tag, prop string) bool {
+	if tag == "" || prop == "" {
+		return true
+	}
+	for _, t := range strings.Fields(tag) {
+		if t == prop {
+			return true
+		}
+	}
+	return false
+}
+
 // filterProperty drops the clauses that belong to another property.
 func (c *Contract) filterProperty(prop string) {
 	keep := func(cs []Clause) []Clause {
 		var out []Clause
 		for _, cl := range cs {
-			if cl.Tag == "" || prop == "" || cl.Tag == prop {
+			if tagHas(cl.Tag, prop) {
 				out = append(out, cl)
 			}
 		}
@@ -506,7 +519,7 @@ func (c *Contract) filterProperty(prop string) {
 	c.Modifies = keep(c.Modifies)
 	var as []SiteAssert
 	for _, a := range c.Asserts {
-		if a.Cl.Tag == "" || prop == "" || a.Cl.Tag == prop {
+		if tagHas(a.Cl.Tag, prop) {
 			as = append(as, a)
 		}
 	}
